@@ -122,7 +122,9 @@ def RV(x):
         return z3.RealVal(x)
     if isinstance(x, Fraction):
         return z3.RealVal(str(x))
-    return z3.RealVal(str(Fraction(x)))
+    # a concrete float stands for the shortest decimal that prints it (0.4 is 2/5, not the
+    # nearest double): concrete host arithmetic such as 1/2.5 then stays exact
+    return z3.RealVal(str(Fraction(repr(float(x)))))
 
 
 _R0 = z3.RealVal(0)
